@@ -19,7 +19,7 @@ BUDGET = {"quick": 900, "thorough": 3400}
 
 DATA_CARRIERS = ("nd_f8", "list_nan", "list_none", "list_mixed", "tuple_nan", "tuple_none", "nd_f4", "nd_i4", "nd_i8", "nd_f8_nc",
                  "ma_nan", "ma_adv", "ma_nomask", "ma_i8", "series", "series_shift", "series_none", "dask")
-TIME_CARRIERS = ("dt64ns", "dt64us", "dt64ms", "dt64s", "list_datetime", "list_timestamp", "list_dt64", "dtindex", "dtindex_utc",
+TIME_CARRIERS = ("dt64ns", "dt64us", "dt64ms", "dt64s", "dt64m", "list_datetime", "list_timestamp", "list_dt64", "dtindex", "dtindex_utc",
                  "series_naive", "series_utc", "series_shift_naive", "epoch_int_list", "epoch_float_list", "epoch_int_nd", "epoch_float_nd",
                  "tuple_datetime")
 
@@ -51,7 +51,9 @@ TESTS = {
                    # magnitudes at which float32 arithmetic on the neighbours is no longer exact
                    dict(suspect_threshold=1.5, fail_threshold=3, _alphabet="big")],
     "rate_of_change_test": [dict(threshold=0.02), dict(threshold=1.5, _step=1.5), dict(threshold=0.9, _step=2.25)],
-    "flat_line_test": [dict(suspect_threshold=60, fail_threshold=120, tolerance=1)],
+    "flat_line_test": [dict(suspect_threshold=60, fail_threshold=120, tolerance=1),
+                       # irregular whole-minute sampling whose median step is a half minute (90 s)
+                       dict(suspect_threshold=90, fail_threshold=180, tolerance=1, _gaps=[60, 120])],
     "attenuated_signal_test": [dict(suspect_threshold=1.2, fail_threshold=0.4), dict(suspect_threshold=1.2, fail_threshold=0.4, test_period=120, check_type="range")],
     "density_inversion_test": [dict(suspect_threshold=0.5, fail_threshold=-1)],
     "location_test": [dict(bbox=[0, 0, 2, 2], range_max=200_000)],
@@ -115,6 +117,8 @@ def mk_data(vals, c):
 def mk_time(secs, c):
     import pandas as pd
 
+    if c == "dt64m" and any(float(s) % 60 for s in secs):
+        return None  # not on whole minutes
     frac = any(float(s) != int(s) for s in secs)
     if frac and c in ("dt64s", "list_dt64", "epoch_int_list", "epoch_int_nd"):
         return None  # the carrier cannot hold fractional seconds
@@ -151,7 +155,7 @@ def mk_time(secs, c):
     raise KeyError(c)
 
 
-def logical_inputs(name, x, step=None):
+def logical_inputs(name, x, step=None, gaps=None):
     """x: logical series (floats / MISS) -> dict axis -> logical values."""
     n = len(x)
     spec = G.SPECS[name]
@@ -164,7 +168,10 @@ def logical_inputs(name, x, step=None):
     if "z" in spec["needs"]:
         d["zinp"] = [5.0 if i % 2 == 0 else (MISS if n > 2 and i == 1 else 6.0) for i in range(n)]
     if "t" in spec["needs"]:
-        d["tinp"] = alpha.regular_secs(n) if step is None else [alpha.T0 + step * i for i in range(n)]
+        if gaps is not None:
+            d["tinp"] = alpha.times_from_gaps([gaps[i % len(gaps)] for i in range(max(n - 1, 0))])[:n] if n else []
+        else:
+            d["tinp"] = alpha.regular_secs(n) if step is None else [alpha.T0 + step * i for i in range(n)]
     if name == "pressure_increasing_test":
         d["inp"] = [v for v in x]
     return d
@@ -200,7 +207,7 @@ def call_with(name, cfg, logical, carriers, span_tuple=False):
 
 def check_case(case):
     name, cfg, x = case["fn"], case["cfg"], case["x"]
-    logical = logical_inputs(name, x, cfg.get("_step"))
+    logical = logical_inputs(name, x, cfg.get("_step"), cfg.get("_gaps"))
     canon = call_with(name, cfg, logical, {})
     res = call_with(name, cfg, logical, case["carriers"], case.get("span_tuple", False))
     if res is None:
